@@ -12,6 +12,7 @@ From Coq Require Import List String Bool Arith.
 Import ListNotations.
 From KV Require Import Base.Bytes Model.Storage Model.Write Model.ScanIO.
 From KV Require Corr.C12.
+From KV Require Corr.C13Batch.
 Local Open Scope list_scope.
 Local Open Scope nat_scope.
 
@@ -25,7 +26,7 @@ Record fobs := FObs {
 }.
 
 Record case := Case {
-  ckind : nat;                         (* 0 rejected 1 select 2 delete (DeletePlan) 3 put 4 remove / delete-as-RemovePlan *)
+  ckind : nat;                         (* 0 rejected 1 select 2 delete (DeletePlan) 3 put 4 remove / delete-as-RemovePlan; 5 = stream batch-polls, see check_case *)
   cstore : store;
   cmatch : list bytes;                 (* keys whose pair passes the filter *)
   cfp : fplan;                         (* kind 1 *)
@@ -131,7 +132,34 @@ Definition spec_code (c : case) : nat :=
   else if negb (forallb (fault_ok c) (seq 0 (List.length (obs_log c)))) then 4
   else 0.
 
+(* KIND 5: the stream "batch-polls" (Corr/C13Batch.v: the storage calls and the rows of every
+   single Next() / Batch() call of a SELECT on a fault-free storage).  The case record is not
+   changed; a kind-5 case is encoded in its fields:
+     ckind = 5, cstore, cmatch, cfp, cB, cmode as for kind 1 (cplan, cn, ctable unused);
+     obs_log    = the whole call log of the run (BuildPlan, then every poll);
+     obs_class  = 0;  obs_final = the store;
+     obs_sizes  = rows returned per poll, the LAST poll (the empty answer) included;
+     obs_faults = [FObs 0 0 b true true] for BuildPlan (b = number of storage calls it issued),
+                  then one [FObs (i+1) 0 n_i true true] per poll i (n_i = number of storage
+                  calls that poll issued): only [floglen] is read.
+   Kind 5 never reaches [stmt_of] / [model] / [spec_code] (which would take it for a delete). *)
+Definition batch_build_calls (c : case) : nat :=
+  match obs_faults c with f :: _ => floglen f | [] => 0 end.
+
+Definition batch_polls (c : case) : list (nat * nat) :=
+  combine (map floglen (tl (obs_faults c))) (obs_sizes c).
+
+Definition batch_encoding_ok (c : case) : bool :=
+  (List.length (obs_faults c) =? S (List.length (obs_sizes c))) && (obs_class c =? 0)
+  && store_eqb (obs_final c) (cstore c).
+
 Definition check_case (c : case) : nat :=
+  if ckind c =? 5 then
+    (if batch_encoding_ok c
+     then Corr.C13Batch.batch_check (cstore c) (cmatch c) (cfp c) (cB c) (cmode c) (obs_log c)
+                                    (batch_polls c) (batch_build_calls c)
+     else 1)
+  else
   match spec_code c with
   | 0 => if twin_agrees c then 0 else 1
   | k => k
